@@ -455,6 +455,12 @@ class Interp:
         assumption anyway, so `not c` is assumed on the spot."""
         return self._call_spec(f, args, kwargs or {}, True, None)
 
+    def call_assumed_aligned(self, f, args=(), kwargs=None):
+        """call_assumed for the first assumptions of a proof (the precondition of the function under
+        verification): strings that the predicate cuts are aligned with the pieces they already have (by case
+        split), as in code; everywhere else an assumed predicate just states facts."""
+        return self._call_spec(f, args, kwargs or {}, 'aligned', None)
+
     def call_proving(self, f, args, name, meta, kwargs=None):
         """Call a spec predicate whose result is going to be PROVED (an obligation `name`).  In its frame (and
         in `return f(..) and g(..)` positions below it) a statement `if c: return False` becomes the obligation
@@ -463,6 +469,15 @@ class Interp:
         return self._call_spec(f, args, kwargs or {}, False, (name, meta))
 
     def _call_spec(self, f, args, kwargs, assumed, proving):
+        if assumed is True:
+            self.assuming = getattr(self, 'assuming', 0) + 1
+            try:
+                return self._call_spec1(f, args, kwargs, True, proving)
+            finally:
+                self.assuming -= 1
+        return self._call_spec1(f, args, kwargs, bool(assumed), proving)
+
+    def _call_spec1(self, f, args, kwargs, assumed, proving):
         if isinstance(f, Closure) and _is_spec_file(f.info.filename):
             return self.run_function(f.info, f.enclosing, f.defaults, f.kwdefaults, args, kwargs, f.defcls_hint,
                                      assumed=assumed, proving=proving)
@@ -1291,7 +1306,9 @@ class Interp:
                 kwargs[k.arg] = self.eval(k.value, frame)
         frame.call_counter += 1
         if frame.assumed and id(node) in _assumed_positions(frame.info):
-            return self.call_assumed(f, args, kwargs)
+            if getattr(self, 'assuming', 0):
+                return self.call_assumed(f, args, kwargs)
+            return self.call_assumed_aligned(f, args, kwargs)
         if frame.proving is not None and id(node) in _assumed_positions(frame.info):
             return self.call_proving(f, args, frame.proving[0], frame.proving[1], kwargs)
         return self.call(f, args, kwargs)
@@ -1715,7 +1732,7 @@ class Interp:
                         handler = h
                         break
                     et = self.eval(h.type, frame)
-                    if self._exc_matches(exc, et):
+                    if self.branch(self._exc_matches(exc, et)):      # (symbolic for an opaque exception)
                         handler = h
                         break
                 if handler is None:
@@ -1748,6 +1765,8 @@ class Interp:
 
     def _exc_matches(self, exc, et):
         if isinstance(et, tuple):
+            if isinstance(exc, Opaque):
+                return self.reg.opaque_isinstance(self, exc, et)
             return any(self._exc_matches(exc, t) for t in et)
         if isinstance(exc, Opaque):
             return self.reg.opaque_isinstance(self, exc, et)
